@@ -83,6 +83,7 @@ class LifecycleMonitor(Monitor):
         self.inflight = {}  # vid -> number of packages containing it that are undelivered/unanswered
         self.inflight_mod = {}  # vid -> kinds of cancel/update/replace packages handed over and not answered yet
         self.exec_pkgs = {}  # thread id -> stack of packages whose execution handler is running on that thread
+        self.answered_early = set()  # (id(package), vid): the order's report was applied before the handler finished
         self.orders = {}
         self.pending_req = None
         self.removed_exempt = set()
@@ -108,6 +109,13 @@ class LifecycleMonitor(Monitor):
         import threading
 
         cur = self.exec_pkgs.get(threading.get_ident())
+        if cur and p in ("CANCELLING", "UPDATING", "REPLACING") and n != p and any(order is o for o in cur[-1]._orders):
+            # the report of this order's own package has just been applied to it: for THIS order the operation is answered,
+            # although the handler may still be busy with the other reports of the package (it can be suspended there)
+            kind_ = cur[-1].package_type.name
+            if kind_ in self.inflight_mod.get(vid, []):
+                self.inflight_mod[vid].remove(kind_)
+                self.answered_early.add((id(cur[-1]), vid))
         if cur and p in ("CANCELLING", "UPDATING", "REPLACING") and n != p and all(order is not o for o in cur[-1]._orders):
             # the reply to a package is being applied on this thread, and it changes the state of an order that is NOT in
             # that package while that order's own request is outstanding
@@ -201,7 +209,9 @@ class LifecycleMonitor(Monitor):
             return  # the package was re-submitted (retry): it is still outstanding
         for o in pkg._orders:
             self.inflight[o._vid] = max(0, self.inflight.get(o._vid, 0) - 1)
-            if pkg.package_type.name != "PLACE" and pkg.package_type.name in self.inflight_mod.get(o._vid, []):
+            if (id(pkg), o._vid) in self.answered_early:
+                self.answered_early.discard((id(pkg), o._vid))
+            elif pkg.package_type.name != "PLACE" and pkg.package_type.name in self.inflight_mod.get(o._vid, []):
                 self.inflight_mod[o._vid].remove(pkg.package_type.name)
         # a response applied after the order's state was changed by a market event since the request
         for o in pkg._orders:
